@@ -53,6 +53,18 @@ enum BackendKind {
 
 #[inline]
 fn get_selected_backend() -> BackendKind {
+    #[cfg(curve25519_dalek_verif)]
+    {
+        match crate::verif_hooks::forced_backend() {
+            crate::verif_hooks::BACKEND_SERIAL => return BackendKind::Serial,
+            #[cfg(curve25519_dalek_backend = "simd")]
+            crate::verif_hooks::BACKEND_AVX2 => return BackendKind::Avx2,
+            #[cfg(all(curve25519_dalek_backend = "unstable_avx512", nightly))]
+            crate::verif_hooks::BACKEND_AVX512 => return BackendKind::Avx512,
+            _ => {}
+        }
+    }
+
     #[cfg(all(curve25519_dalek_backend = "unstable_avx512", nightly))]
     {
         cpufeatures::new!(cpuid_avx512, "avx512ifma", "avx512vl");
